@@ -1320,6 +1320,9 @@ export class TupleRuntype extends BaseRuntype {
           popPath(ctx);
         }
       }
+    } else if (input.length > idx) {
+      // validate() rejects surplus items of a tuple without rest element
+      acc.push(...buildError(ctx, `expected tuple with ${idx} item(s)`, input));
     }
 
     return acc;
